@@ -3,6 +3,8 @@ package clip
 import (
 	"testing"
 
+	"github.com/tailscale/setec/client/setec"
+	"verifharness/fake"
 	"verifharness/h"
 )
 
@@ -11,3 +13,12 @@ func TestReplay(t *testing.T) {
 }
 
 func nolog(string, ...any) {}
+
+// storeClient is what a store is configured with: the scripted service itself, or (wire) the real
+// setec.Client speaking HTTP to it, which puts client.go under the same oracles.
+func storeClient(svc *fake.Svc, wire bool) setec.StoreClient {
+	if wire {
+		return svc.Wire()
+	}
+	return svc
+}
